@@ -39,7 +39,7 @@ type verCase struct {
 }
 
 var verMods = []Op{
-	{Op: "AddStamp", A: "p2", B: "a"}, {Op: "AddStamp", A: "p1", B: "b"}, {Op: "ClearStamps"},
+	{Op: "AddStamp", A: "p2", B: "a"}, {Op: "AddStamp", A: "p1", B: "b"}, {Op: "AddStamp", A: "p2", B: "b"}, {Op: "ClearStamps"},
 	{Op: "AddLink", A: "l2", B: "x"}, {Op: "AddLink", A: "l1", B: "y"},
 	{Op: "AddTag", A: "t2"}, {Op: "SetMeta", A: "m2", B: "a"}, {Op: "SetMeta", A: "m1", B: "b"},
 	{Op: "SetNotes", A: "n2"}, {Op: "SetUUID", A: "u2"},
@@ -49,6 +49,8 @@ var verMods = []Op{
 
 var verSetups = [][]Op{
 	{{Op: "Sign", A: "k1"}},
+	// a stamp sealed by a second signature: later changes of the header are judged against both signed headers
+	{{Op: "Sign", A: "k1"}, {Op: "AddStamp", A: "p1", B: "a"}, {Op: "Sign", A: "k1"}},
 	// signed after 1, 3 or 5 benign edits: the next edit then leads to a text an encoder easily confuses with the signed one
 	{{Op: "EditBenign"}, {Op: "Calculate"}, {Op: "Sign", A: "k1"}},
 	{{Op: "EditBenign"}, {Op: "EditBenign"}, {Op: "EditBenign"}, {Op: "Calculate"}, {Op: "Sign", A: "k1"}},
